@@ -270,6 +270,32 @@ pub fn bool_scenario(n: usize, shape: &str, op: &str) -> (u64, u64, u64) {
             let a = MultiPolygon(vec![Polygon::new(LineString(pts), vec![])]);
             (a, MultiPolygon(vec![rect(-1.0, 0.5, m as f64 + 1.0, 0.75)]))
         }
+        // a vertex of very high degree: n thin triangles share their right-most vertex (0,0)
+        // (parts of a multipolygon may touch in a point), the other operand's triangle has it as its
+        // left-most vertex and is traced last - walking past all the processed edges at (0,0)
+        "hub" => {
+            let h = n as f64;
+            let tris: Vec<Polygon<f64>> = (0..n)
+                .map(|k| {
+                    let y = 2.0 * k as f64 - h;
+                    Polygon::new(LineString(vec![Coord { x: -1.0, y }, Coord { x: 0.0, y: 0.0 }, Coord { x: -1.0, y: y + 1.0 }, Coord { x: -1.0, y }]), vec![])
+                })
+                .collect();
+            let c = Polygon::new(LineString(vec![Coord { x: 0.0, y: 0.0 }, Coord { x: 1.0, y: -1.0 }, Coord { x: 1.0, y: 1.0 }, Coord { x: 0.0, y: 0.0 }]), vec![]);
+            (MultiPolygon(tris), MultiPolygon(vec![c]))
+        }
+        // the mirror image: the fan opens to the right of the hub, the single triangle lies left
+        "hub_right" => {
+            let h = n as f64;
+            let tris: Vec<Polygon<f64>> = (0..n)
+                .map(|k| {
+                    let y = 2.0 * k as f64 - h;
+                    Polygon::new(LineString(vec![Coord { x: 0.0, y: 0.0 }, Coord { x: 1.0, y }, Coord { x: 1.0, y: y + 1.0 }, Coord { x: 0.0, y: 0.0 }]), vec![])
+                })
+                .collect();
+            let c = Polygon::new(LineString(vec![Coord { x: 0.0, y: 0.0 }, Coord { x: -1.0, y: 1.0 }, Coord { x: -1.0, y: -1.0 }, Coord { x: 0.0, y: 0.0 }]), vec![]);
+            (MultiPolygon(tris), MultiPolygon(vec![c]))
+        }
         _ => panic!("unknown shape {}", shape),
     };
     let edges: u64 = a.0.iter().chain(b.0.iter()).map(|p| (p.exterior().0.len() - 1) as u64).sum();
